@@ -582,10 +582,18 @@ func (r *poolsRunner) run(c int, rec poolsDescRec, clone int) (o poolsOutcome) {
 func (r *poolsRunner) runStruct(d poolsDesc, fnMap valid.Name2FnMap, o *poolsOutcome) error {
 	cl := r.cl
 	rt := r.w.rtype(d.T, cl)
-	val := r.w.build(rt, d.Val)
-	pristine := r.w.build(rt, d.Val)
+	nilRoot := d.Val.K == "nilptr" // the argument is a nil pointer to the root type
+	var val, pristine reflect.Value
+	if nilRoot {
+		val, pristine = reflect.New(rt).Elem(), reflect.New(rt).Elem()
+	} else {
+		val = r.w.build(rt, d.Val)
+		pristine = r.w.build(rt, d.Val)
+	}
 	var src interface{}
-	if r.rng.Intn(2) == 0 {
+	if nilRoot {
+		src = reflect.Zero(reflect.PtrTo(rt)).Interface()
+	} else if r.rng.Intn(2) == 0 {
 		src = val.Addr().Interface()
 	} else {
 		src = val.Interface()
@@ -661,10 +669,14 @@ func (r *poolsRunner) runStruct(d poolsDesc, fnMap valid.Name2FnMap, o *poolsOut
 		err = vs.Valid(src)
 	}
 	got := reflect.ValueOf(src)
-	for got.Kind() == reflect.Ptr {
+	for got.Kind() == reflect.Ptr && !got.IsNil() {
 		got = got.Elem()
 	}
-	o.inputSame = reflect.DeepEqual(got.Interface(), pristine.Interface())
+	if nilRoot {
+		o.inputSame = got.Kind() == reflect.Ptr && got.IsNil()
+	} else {
+		o.inputSame = reflect.DeepEqual(got.Interface(), pristine.Interface())
+	}
 	o.rmSame = poolsRMEqual(unscoped, unscopedCopy) && len(fnMap) == fnKeys
 	for _, t := range typed {
 		o.rmSame = o.rmSame && poolsRMEqual(t.rm, t.copy)
